@@ -317,6 +317,10 @@ Definition phys_doc (T : table) (r : list text) : doc := combine (t_header T) (m
 Definition single_sheet (f : fmt) : bool :=
   match f with F_CSV | F_TAB | F_NDJSON | F_FIXED | F_EBCDIC => true | _ => false end.
 
+(* formats read through a third-party parser whose writer also exists (XLS: xlrd reads, nothing writes) *)
+Definition third_party (f : fmt) : bool :=
+  match f with F_CSV | F_TAB | F_XLSX | F_ODS | F_XLS | F_NDJSON => true | _ => false end.
+
 (* a single-sheet file stores one table, presented under the empty name *)
 Definition storable (f : fmt) (W : workbook) : bool :=
   if single_sheet f then match W with [([], _)] => true | _ => false end else true.
@@ -340,7 +344,7 @@ Definition expected_rows (T : table) : rows_obs :=
 Definition expected (W : workbook) : obs := map (fun s => (fst s, expected_rows (snd s))) W.
 
 (* the same, as associations name -> value, from [cells_by_name] *)
-Definition by_name (probes : list key) (o : rows_obs) : res (list (list (key * value))) :=
+Definition rows_by_name (probes : list key) (o : rows_obs) : res (list (list (key * value))) :=
   match o with Ok rows => Ok (map (combine probes) rows) | Err e => Err e end.
 Definition expected_by_name (T : table) : res (list (list (key * value))) :=
   Ok (map (map (fun kc => (fst kc, Ok (Some (Txt (snd kc)))))) (cells_by_name T)).
